@@ -62,7 +62,7 @@ func genL(prop string) func(r *sim.Rng, tier string) any {
 			impostorRate, faultRate = 0.55, 0.15
 		}
 		for i := 0; i < n; i++ {
-			e := LEndpoint{Identity: "genuine", CA: r.Intn(ncas), TLS: pick(r, []string{"1.3", "1.3", "1.2"}), ClientAuth: pick(r, []string{"require", "require", "request", "none"}), Dial: "ok"}
+			e := LEndpoint{Identity: "genuine", CA: r.Intn(ncas), TLS: pick(r, []string{"1.3", "1.3", "1.2"}), ClientAuth: pick(r, []string{"require", "require", "request", "request_hint_other", "none"}), Dial: "ok"}
 			if r.Bool(0.5) {
 				e.Name = fmt.Sprintf("10.0.0.%d", i+1)
 			} else {
